@@ -365,7 +365,7 @@ char* MatchCharsRev(char const* pStr, char const* pPattern, ...) {
             char const* pPatternStr = va_arg(ap, char const*);
             char*       pSave       = va_arg(ap, char*);
 
-            if (!strchr(pPatternStr, as_toupper(*pStrRun))) {
+            if ((pStrRun < pStr) || !strchr(pPatternStr, as_toupper(*pStrRun))) {
                 goto func_exit;
             }
             if (pSave) {
